@@ -45,11 +45,16 @@ pub struct Case {
     pub catch_at: u8,
     /// coroutine stack size in KiB (coroutine context only)
     pub co_stack_kib: u16,
+    /// the callback of this level descends a second time after its first descent has returned
+    /// (zig-zag: back from inner segments to an outer one, then down again)
+    #[serde(default)]
+    pub again_at: Option<u8>,
 }
 
 pub fn strategy() -> impl Strategy<Value = Case> {
-    (any::<bool>(), 8u16..=64, 16u16..=128, 0u8..4, 1u8..=80, proptest::option::weighted(0.6, 0u8..80), 0u8..80, prop_oneof![Just(64u16), Just(128), Just(256)])
-        .prop_map(|(coroutine, mut red_zone_kib, extra_kib, frame, depth, panic_at, catch_at, co_stack_kib)| {
+    (any::<bool>(), 8u16..=64, 16u16..=128, 0u8..4, 1u8..=80, proptest::option::weighted(0.6, 0u8..80), 0u8..80, prop_oneof![Just(64u16), Just(128), Just(256)], proptest::option::weighted(0.5, 0u8..80))
+        .prop_map(|(coroutine, mut red_zone_kib, extra_kib, frame, depth, panic_at, catch_at, co_stack_kib, again_at)| {
+            let again_at = again_at.map(|a| a % depth);
             let f_kib = [1u16, 4, 8, 16][frame as usize];
             // a level's own frame must fit inside the guaranteed room with space for the probe
             red_zone_kib = red_zone_kib.max(f_kib + 8);
@@ -63,7 +68,7 @@ pub fn strategy() -> impl Strategy<Value = Case> {
                 Some(p) => catch_at % (p + 1),
                 None => 0,
             };
-            Case { coroutine, red_zone_kib, extra_kib, frame, depth, panic_at, catch_at, co_stack_kib }
+            Case { coroutine, red_zone_kib, extra_kib, frame, depth, panic_at, catch_at, co_stack_kib, again_at }
         })
 }
 
@@ -90,6 +95,9 @@ pub fn model(c: &Case, with_panic: bool) -> u64 {
 struct Log {
     /// per level: did the callback run on another stack than its caller
     switched: Vec<bool>,
+    /// the same by level number (first descent), for the comparison with a second descent
+    first_by_level: std::collections::HashMap<u32, bool>,
+    second_descents: u32,
     problems: Vec<String>,
     max_segments: usize,
     segments_at_panic: usize,
@@ -98,6 +106,8 @@ struct Log {
 
 thread_local! {
     static LOG: RefCell<Log> = RefCell::new(Log::default());
+    /// > 0 while a second descent is in progress
+    static SECOND: std::cell::Cell<u32> = const { std::cell::Cell::new(0) };
 }
 
 struct St {
@@ -107,6 +117,7 @@ struct St {
     panic_at: Option<u32>,
     catch_at: u32,
     coroutine: bool,
+    again_at: Option<u32>,
 }
 
 #[inline(never)]
@@ -138,9 +149,24 @@ fn rec<const F: usize>(st: &St, d: u32) -> u64 {
     Co::maybe_grow_with(st.red, st.seg, || {
         let cb_sp = sp();
         let switched = !(cb_sp <= caller_sp && caller_sp - cb_sp < 4096);
+        let second = SECOND.with(std::cell::Cell::get) > 0;
         LOG.with(|l| {
             let mut l = l.borrow_mut();
-            l.switched.push(switched);
+            if second {
+                // same frame above, same stack pointer at the call: the decision must be the same
+                if let Some(first) = l.first_by_level.get(&d).copied() {
+                    if first != switched {
+                        l.problems.push(format!(
+                            "level {d}: on the second descent from the same frame the call {}, on the first descent it {}",
+                            if switched { "switched to a fresh segment" } else { "ran in place" },
+                            if first { "switched to a fresh segment" } else { "ran in place" }
+                        ));
+                    }
+                }
+            } else {
+                l.switched.push(switched);
+                let _ = l.first_by_level.insert(d, switched);
+            }
         });
         if st.coroutine {
             if let Some(co) = Co::current() {
@@ -191,6 +217,22 @@ fn rec<const F: usize>(st: &St, d: u32) -> u64 {
         } else {
             1
         };
+        if st.again_at == Some(d) && d + 1 < st.depth && !second {
+            // zig-zag: the first descent has returned (its segments are released), go down again
+            SECOND.with(|x| x.set(1));
+            LOG.with(|l| l.borrow_mut().second_descents += 1);
+            let r2 = std::panic::catch_unwind(std::panic::AssertUnwindSafe(|| rec::<F>(st, d + 1)));
+            SECOND.with(|x| x.set(0));
+            let v2 = match r2 {
+                Ok(v2) => v2,
+                // this level is the catch site of the generated panic: caught here as before
+                Err(_) if st.panic_at.is_some() && st.catch_at == d + 1 => MARK,
+                Err(e) => std::panic::resume_unwind(e),
+            };
+            if v2 != below {
+                LOG.with(|l| l.borrow_mut().problems.push(format!("level {d}: the second descent returned {v2}, the first one {below}")));
+            }
+        }
         mix(below, d).wrapping_add(u64::from(fr[0]).wrapping_sub(u64::from(d as u8)))
     })
     .expect("allocate stack failed")
@@ -222,6 +264,7 @@ fn run_phase(c: &Case, with_panic: bool) -> u64 {
         panic_at: if with_panic { c.panic_at.map(u32::from) } else { None },
         catch_at: u32::from(c.catch_at),
         coroutine: c.coroutine,
+        again_at: c.again_at.map(u32::from),
     };
     match c.frame % 4 {
         0 => top::<1024>(&st),
@@ -242,7 +285,7 @@ fn phases(c: &Case) {
     let v0 = run_phase(c, true);
     let l0 = take_log();
     let mid = infos();
-    child::emit(json!({"ev":"done","k":0,"value":v0.to_string(),"switched":l0.switched,"problems":l0.problems,"max_segments":l0.max_segments,
+    child::emit(json!({"ev":"done","k":0,"value":v0.to_string(),"switched":l0.switched,"problems":l0.problems,"max_segments":l0.max_segments,"second_descents":l0.second_descents,
         "segments_at_panic":l0.segments_at_panic,"segments_at_catch":l0.segments_at_catch,"infos_equal": before == mid}));
     child::emit(json!({"ev":"start","k":1}));
     let v1 = run_phase(c, false);
@@ -294,7 +337,7 @@ pub fn exec(c: &Case) -> Outcome {
             o.nontrivial = through;
             o = o.class_if(through, "panic-unwound-through-a-grown-segment");
         }
-        o = o.class_if(sw.iter().filter(|s| **s).count() >= 2, "2+segments-grown").class_if(c.coroutine, "coroutine").class_if(!c.coroutine, "plain-thread");
+        o = o.class_if(d0["second_descents"].as_u64().unwrap_or(0) > 0, "second-descent-from-a-frame").class_if(sw.iter().filter(|s| **s).count() >= 2, "2+segments-grown").class_if(c.coroutine, "coroutine").class_if(!c.coroutine, "plain-thread");
     }
     match &r.end {
         End::Exit(0) => {}
@@ -325,6 +368,8 @@ pub fn exec(c: &Case) -> Outcome {
                 "callback-entered-with-less-than-the-red-zone"
             } else if p.contains("outside the last reported segment") {
                 "stack-pointer-outside-the-last-reported-segment"
+            } else if p.contains("second descent") {
+                "second-descent-from-the-same-frame-differs"
             } else {
                 "segments-differ-across-a-caught-panic"
             };
